@@ -333,3 +333,5 @@ def run(chk, repo, tier):
         qualname='ThermochemGroup',
         what='ThermochemGroup adds nothing to ThermochemIncomplete (same '
              'writer, reader and schema)')
+    from . import c12 as _c12
+    _c12.yaml_machinery(chk, repo, 'R18.7')
